@@ -290,6 +290,13 @@ def gen_key(rng, tier):
         ts = sorted({wf_tuple(rng) for _ in range(n)}, key=canon)
         n = len(ts)
         k = rng.choice(ts) if ts and rng.random() < 0.5 else wf_tuple(rng)
+        if ts and rng.random() < 0.4:
+            # same slice as a stored tuple, neighbouring length (8-byte key vs link, key vs its zero extension)
+            base = rng.choice(ts)
+            ln = rng.choice([8, 9, max(0, base[1] - 1), min(9, base[1] + 1)])
+            nb = min(ln, 8)
+            sl = base[0] & (~((1 << (8 * (8 - nb))) - 1) if nb < 8 else (1 << 64) - 1)
+            k = (sl, ln)
         cases.append("key border %x %s %x %x" % (n, " ".join("%x %x" % t for t in ts), k[0], k[1])); dist["border"] += 1
         seps = [t for t in ts if t[1] != 0]
         cases.append("key interior %x %s %x %x" % (len(seps), " ".join("%x %x" % t for t in seps), k[0], k[1]))
